@@ -286,8 +286,7 @@ Proof.
     + destruct (proj2 (resolve_fail bp t) Lbp) as [e He]. rewrite He. split; cbn; auto.
   - (* the source is gone *)
     destruct (lookup bp t) as [dp|] eqn:Lbp.
-    + assert (forall X : result * node, fst X = Err ENOENT /\ snd X = t -> step_agree (Err ENOENT, t) X -> True) by auto.
-      destruct (resolve ap t) as [[d|ses]|e] eqn:Rap; try (split; cbn; auto; fail).
+    + destruct (resolve ap t) as [[d|ses]|e] eqn:Rap; try (split; cbn; auto; fail).
       destruct (resolve bp t) as [[d|des]|e] eqn:Rbp; try (split; cbn; auto; fail).
       assert (Has : assoc an ses = None).
       { subst a. apply resolve_found in Rap. rewrite <- (lookup_snoc_dir _ an _ _ Rap). exact La. }
